@@ -1,6 +1,7 @@
 /-
-  (T) translator: `translate_part` and the grid limits of helper/formula.rs, regenerated from the source
-  on every run (`Umya/Model/Gen/Kernels.lean`), are the hand model's `translatePart`, `maxCol`, `maxRow`.
+  (T) translator: `translate_part`, `insert_part` and the grid limits of helper/formula.rs, regenerated
+  from the source on every run (`Umya/Model/Gen/Kernels.lean`), are the hand model's `translatePart`,
+  `insertPart`, `maxCol`, `maxRow`.
 -/
 import Umya.Model.Gen.Kernels
 import Umya.Model.Formula
@@ -21,6 +22,24 @@ theorem gen_translate_part (p : Part) (d : Int) (max : Nat) :
     · have h1 : ¬ ((n : Int) + d < 1) := fun x => h (Or.inl x)
       have h2 : ¬ ((n : Int) + d > (max : Int)) := fun x => h (Or.inr x)
       simp [h1, h2]
+
+theorem gen_insert_part (p : Part) (root off max : Nat) (isEnd : Bool) :
+    (insert_part ((p.1 : Int), p.2) root off max isEnd).map (fun q => (q.1.toNat, q.2))
+      = insertPart p root off max isEnd := by
+  obtain ⟨n, l⟩ := p
+  simp only [insert_part, insertPart]
+  by_cases h1 : n < root
+  · have : ((n : Int) < (root : Int)) := by omega
+    simp [h1, this]
+  · have h1' : ¬ ((n : Int) < (root : Int)) := by omega
+    by_cases h2 : off = 0
+    · simp [h2]
+    · by_cases h3 : n + off ≤ max
+      · have : ((n : Int) + (off : Int) ≤ (max : Int)) := by omega
+        have e : ((n : Int) + (off : Int)).toNat = n + off := by omega
+        simp [h1, h1', h2, h3, this, e]
+      · have : ¬ ((n : Int) + (off : Int) ≤ (max : Int)) := by omega
+        cases isEnd <;> simp [h1, h1', h2, h3, this]
 
 theorem gen_grid_limits : max_column_num = maxCol ∧ max_row_num = maxRow := ⟨rfl, rfl⟩
 
